@@ -12,6 +12,8 @@ LEAN_MODULES = ["QProps.C04", "QProps.C04h"]
 THEOREMS = [
     "MC.energy_history",
     "MC.energy_history_grand",
+    "MC.evals_trial_of",
+    "MC.evals_history",
     "MC.getEnergy_spec",
     "MC.getEnergy_free",
     "MC.stateless_always_fresh",
